@@ -86,8 +86,13 @@ def reads_for(kind):
         if kind == "graph" and ("graph" in name or "from" in name):
             continue
         out.append(("query:" + name, q(text)))
-    out.append(("path:triples", lambda x: ("set", frozenset((tkey(s), tkey(o)) for s, _, o in x.triples((None, MulPath(P, "*"), None))))))
-    out.append(("path:objects", lambda x: ("set", frozenset(tkey(o) for o in x.objects(A, P / P)))))
+    # the path objects are built once per pair of reads (run_pair) and shared by both reads: "the same read twice" passes the same argument objects
+    out.append(("path:triples", lambda x: ("set", frozenset((tkey(s), tkey(o)) for s, _, o in x.triples((None, _ENV["star"], None))))))
+    out.append(("path:objects", lambda x: ("set", frozenset(tkey(o) for o in x.objects(A, _ENV["seq"])))))
+    out.append(("path:subjects", lambda x: ("set", frozenset(tkey(s_) for s_ in x.subjects(_ENV["seq"], URIRef(EX + "b"))))))
+    out.append(("path:slice-backward", lambda x: ("set", frozenset(tkey(s_) for s_ in x[:_ENV["seq3"]:URIRef(EX + "b")]))))
+    out.append(("path:alt-inv", lambda x: ("set", frozenset((tkey(s_), tkey(o)) for s_, _, o in x.triples((None, _ENV["altinv"], None))))))
+    out.append(("path:neg", lambda x: ("set", frozenset((tkey(s_), tkey(o)) for s_, _, o in x.triples((A, _ENV["neg"], None))))))
     out.append(("iter", lambda x: ("n", len(list(iter(x))))))
     out.append(("len", lambda x: ("n", len(x))))
     out.append(("slice", lambda x: ("set", frozenset(tkey(o) for o in x[A:P]))))
@@ -176,9 +181,19 @@ def same_answer(a, b):
     return False
 
 
+_ENV = {}
+
+
+def fresh_paths():
+    Q = URIRef(EX + "q")
+    return {"star": MulPath(P, "*"), "seq": P / P, "seq3": P / P / P, "altinv": (P | ~P) / P, "neg": -(P | Q) | P}
+
+
 def run_pair(state, n1, n2, reads, horizon=20.0):
     kind = state[0]
     x = build(state)
+    _ENV.clear()
+    _ENV.update(fresh_paths())
     before = snapshot(x, kind)
     answers = []
     for name in (n1, n2):
